@@ -338,6 +338,44 @@ bool apply_workload_edit(std::string& d, const Step& st)
     }
     return false;
   }
+  if (st.op == "coo") {
+    // a <coordinates> cluster of observed coordinates mixing kinds: xy only, z only, xyz, in any order (the archive has
+    // no z inside such a cluster), with a diagonal or band-1 covariance matrix.  Values: the given coordinates of
+    // adjusted points, moved by a few millimetres.
+    std::vector<std::pair<size_t, size_t>> inside;
+    for (size_t t = 0; t < S.tags.size(); t++) if (S.tags[t].start && S.tags[t].name == "coordinates" && S.tags[t].match >= 0) inside.push_back({S.tags[t].b, S.tags[S.tags[t].match].e});
+    struct P { std::string id, x, y, z; };
+    std::vector<P> pts;
+    for (int t : tags_named({"point"})) {
+      const xmlscan::Tag& T = S.tags[t]; bool in = false; for (auto& r : inside) if (T.b >= r.first && T.b < r.second) in = true;
+      if (in || !has_attr(T, "adj")) continue;
+      P q; for (auto& a : T.attrs) { std::string n = d.substr(a.nb, a.ne - a.nb), v = d.substr(a.vb, a.ve - a.vb); if (n == "id") q.id = v; else if (n == "x") q.x = v; else if (n == "y") q.y = v; else if (n == "z") q.z = v; }
+      auto plain = [](const std::string& v) { if (v.empty()) return false; for (char c : v) if (!(isdigit((unsigned char)c) || c == '.' || c == '-' || c == ' ')) return false; return true; };
+      if (q.id.empty() || q.id.find('"') != std::string::npos) continue;
+      if (!plain(q.x) || !plain(q.y)) q.x = q.y = "";
+      if (!plain(q.z)) q.z = "";
+      if (q.x.empty() && q.z.empty()) continue;
+      pts.push_back(q);
+    }
+    size_t close = d.rfind("</points-observations>");
+    if (pts.empty() || close == std::string::npos) return false;
+    int m = 2 + (int)(st.arg(1) % 3), dim = 0; std::string body; uint64_t h = (uint64_t)st.arg(2) * 2654435761u + 12345;
+    auto shifted = [&](const std::string& v, int mm) { return fmt("%.4f", atof(v.c_str()) + 0.001 * mm); };
+    for (int i = 0; i < m; i++) {
+      const P& q = pts[(size_t)(st.arg(0) + i * 7) % pts.size()]; h = h * 6364136223846793005ull + 1442695040888963407ull;
+      int kind = (int)((h >> 33) % 3);                       // 0 xy, 1 z, 2 xyz
+      if (q.x.empty()) kind = 1; else if (q.z.empty()) kind = 0;
+      body += "<point id=\"" + q.id + "\"";
+      if (kind != 1) { body += " x=\"" + shifted(q.x, 2) + "\" y=\"" + shifted(q.y, -1) + "\""; dim += 2; }
+      if (kind != 0) { body += " z=\"" + shifted(q.z, 3) + "\""; dim += 1; }
+      body += " />\n";
+    }
+    int band = dim > 1 && st.arg(2) % 2 ? 1 : 0;
+    std::string cov = fmt("<cov-mat dim=\"%d\" band=\"%d\">", dim, band);
+    for (int i = 0; i < dim; i++) { cov += " 25"; if (band && i + 1 < dim) cov += " 2"; }
+    d.insert(close, "<coordinates>\n" + body + cov + " </cov-mat>\n</coordinates>\n");
+    return true;
+  }
   if (st.op == "noise") {
     // perturb an observed value in its last written digit
     std::vector<int> v = tags_named({"z-angle", "s-distance", "direction", "distance", "angle", "dh", "azimuth"}); if (v.empty()) return false;
@@ -490,8 +528,8 @@ Plan RestartEngine::generate(uint64_t seed, uint64_t, const std::string&)
   p.set("extra", extra); p.set("extra_later", later);
   if (g.chance(1, 3)) { p.seti("noxml", 1); if (g.chance(1, 2)) p.set("angular", "--angular 360"); else if (g.chance(1, 4)) p.set("angular", "--angular 400"); }
   int ne = g.chance(1, 3) ? 0 : (int)g.range(1, 4);
-  static const char* W[] = {"dh", "dh", "adh", "ext", "dist", "status", "noise", "prec", "prec", "ids", "cdh", "cdh"};
-  for (int i = 0; i < ne; i++) { Step s; s.op = W[g.below(12)]; s.a = {(long long)g.below(1000), (long long)g.below(1000), (long long)g.below(1000)}; p.steps.push_back(s); }
+  static const char* W[] = {"dh", "dh", "adh", "ext", "dist", "status", "noise", "prec", "prec", "ids", "cdh", "cdh", "coo", "coo"};
+  for (int i = 0; i < ne; i++) { Step s; s.op = W[g.below(14)]; s.a = {(long long)g.below(1000), (long long)g.below(1000), (long long)g.below(1000)}; p.steps.push_back(s); }
   return p;
 }
 
